@@ -13,7 +13,8 @@ raw (V, E, F, C, edge attributes) description only:
                 (4 triangles / tet, 6 quads / hex = the 4-cycles of the cube graph, shared faces once)
   cells         unchanged
   face_corners / cell_corners   one record per incidence, element order, element and owner
-  cell_faces    4 (tet) / 6 (hex) records per cell, grouped by cell in cell order, face id and owner cell
+  cell_faces    one record per incidence of a cell with an existing face (4 per tet / 6 per hex once faces are completed),
+                grouped by cell in cell order, face id and owner cell
   class         class of the highest-dimensional element present in the finished data
   rebuild       T(RawMeshData(m)) once and twice, and T(raw) twice on the same raw, leave every container,
                 corner list and attribute value unchanged
@@ -146,8 +147,11 @@ def conv_vertices(V, kind):
     raise ValueError(kind)
 
 
-def make_raw(inp, rows, vrows):
+def make_raw(inp, rows, vrows, prefilled=False):
     raw = RawMeshData()
+    if prefilled:           # as the OFF / OBJ / geogram readers do: corners of the DECLARED faces and cells come with the data
+        raw.face_corners += [(v, f) for f, row in enumerate(inp['F']) for v in row]
+        raw.cell_corners += [(v, c) for c, row in enumerate(inp['C']) for v in row]
     raw.vertices += conv_vertices(inp['V'], vrows)
     raw.edges += conv_rows(inp['E'], rows)
     raw.faces += conv_rows(inp['F'], rows)
@@ -216,6 +220,8 @@ def write_file(inp, ext, path):
 def routes_for(inp):
     """construction routes applicable to an input"""
     out = ['raw', 'ctor']
+    if inp['F'] or inp['C']:
+        out.append('raw_prefilled')
     nV = len(inp['V'])
     homog = lambda R: len({len(r) for r in R}) <= 1
     if not inp.get('attrs') and nV and homog(inp['F']) and homog(inp['C']) and all(a < nV and b < nV for a, b in inp['E']):
@@ -238,6 +244,8 @@ def build(inp, route, rows, vrows, sp):
         return _instanciate_raw_mesh_data(make_raw(inp, rows, vrows))
     if route == 'ctor':
         return getattr(M.mesh, sp['cls'])(make_raw(inp, rows, vrows))
+    if route == 'raw_prefilled':
+        return _instanciate_raw_mesh_data(make_raw(inp, rows, vrows, True))
     if route == 'from_arrays':
         V = np.array(inp['V'], dtype=float)
         E = np.array(inp['E'], dtype=int).reshape(-1, 2) if inp['E'] else None
@@ -280,10 +288,23 @@ def corner_records(cont, what):
     return out, None
 
 
+def first_diff(rec, want):
+    k = 0
+    while k < min(len(rec), len(want)) and rec[k] == want[k]:
+        k += 1
+    return '%d (vertex, owner) records, expected %d; first difference at record %d: %r, expected %r' % (
+        len(rec), len(want), k, rec[k:k + 4], want[k:k + 4])
+
+
 def check_structure(m, inp, sp):
     """-> {(clause, op): error or None}"""
     R = {}
     nV = sp['nV']
+    # ---- cells
+    cells = irows(m.cells) if hasattr(m, 'cells') else []
+    R[('cells', None)] = None if cells == [list(c) for c in inp['C']] else '[cells/changed] cells %r, declared %r' % (cells, inp['C'])
+    if R[('cells', None)]:
+        return R            # everything else derives from the cells
     # ---- class
     R[('class', None)] = None if type(m).__name__ == sp['cls'] else '[class/wrong] built a %s, the highest-dimensional element present calls for a %s' % (type(m).__name__, sp['cls'])
     # ---- vertices
@@ -327,6 +348,9 @@ def check_structure(m, inp, sp):
         err = None
         if not (edges_ok and uniq):
             R[('edge_attrs', a['name'])] = None      # cannot map indices; the edges clause reports
+            continue
+        if not has_edges:
+            R[('edge_attrs', a['name'])] = None      # no edge survived (the edges clause agreed): nothing left to read
             continue
         if not m.edges.has_attribute(a['name']):
             err = '[edge_attrs/lost] attribute %r is gone' % a['name']
@@ -375,16 +399,13 @@ def check_structure(m, inp, sp):
         if got != want:
             err = '[faces/completion] completed faces %r: missing %r, in excess %r' % (faces[nd:], sorted((want - got).elements()), sorted((got - want).elements()))
     R[('faces', None)] = err
-    # ---- cells
-    cells = irows(m.cells) if hasattr(m, 'cells') else []
-    R[('cells', None)] = None if cells == [list(c) for c in inp['C']] else '[cells/changed] cells %r, declared %r' % (cells, inp['C'])
     # ---- face corners
     if hasattr(m, 'face_corners'):
         rec, err = corner_records(m.face_corners, 'face_corners')
         if not err:
             want = [(v, f) for f, row in enumerate(faces) for v in row]
             if rec != want:
-                err = '[face_corners/content] face corner records %r, expected %r' % (rec[:12], want[:12])
+                err = '[face_corners/content] %s' % first_diff(rec, want)
         R[('face_corners', None)] = err
     elif faces:
         R[('face_corners', None)] = '[face_corners/absent] no face_corners container'
@@ -393,19 +414,22 @@ def check_structure(m, inp, sp):
         if not err:
             want = [(v, c) for c, row in enumerate(cells) for v in row]
             if rec != want:
-                err = '[cell_corners/content] cell corner records %r, expected %r' % (rec[:12], want[:12])
+                err = '[cell_corners/content] %s' % first_diff(rec, want)
         R[('cell_corners', None)] = err
         # ---- cell faces
         err = None
         cf = m.cell_faces
         fkeys = [tuple(sorted(f)) for f in faces]
-        want_owner = [c for c, row in enumerate(cells) for _ in local_faces(row)]
+        present = set(fkeys)
+        # incidences with faces that exist (all 4 / 6 of them once faces are completed from cells)
+        inc = [[f for f in local_faces(row) if tuple(sorted(f)) in present] for row in cells]
+        want_owner = [c for c, lf in enumerate(inc) for _ in lf]
         if len(cf._elem) != len(want_owner):
-            err = '[cell_faces/count] %d cell-face records, expected %d (4 per tetrahedron, 6 per hexahedron)' % (len(cf._elem), len(want_owner))
+            err = '[cell_faces/count] %d cell-face records, expected %d (one per cell-face incidence: 4 per tetrahedron, 6 per hexahedron when all faces exist)' % (len(cf._elem), len(want_owner))
         else:
             k = 0
             for c, row in enumerate(cells):
-                lf = local_faces(row)
+                lf = inc[c]
                 got = Counter(fkeys[int(i)] if 0 <= int(i) < len(faces) else None for i in cf._elem[k:k + len(lf)])
                 want = Counter(tuple(sorted(f)) for f in lf)
                 if got != want:
@@ -443,57 +467,60 @@ def snapshot(m):
     return S
 
 
-def diff(S0, S1):
-    for k in sorted(set(S0) | set(S1)):
-        if S0.get(k) != S1.get(k):
-            return k, S0.get(k), S1.get(k)
-    return None
+def diffs(S0, S1):
+    """-> {key: (before, after)} for every entry that differs"""
+    return {k: (S0.get(k), S1.get(k)) for k in sorted(set(S0) | set(S1)) if S0.get(k) != S1.get(k)}
 
 
 def check_rebuild(inp, route, rows, vrows, sp):
-    """building again from an already built mesh changes nothing"""
+    """building again from an already built mesh changes nothing: one case per (way of rebuilding, container / attribute)"""
     R = {}
+
+    def record(way, S0, changed, how, raised=None):
+        for k in S0:
+            R[('rebuild', '%s:%s' % (way, k))] = None
+        for k, (a, b) in changed.items():
+            R[('rebuild', '%s:%s' % (way, k))] = '[rebuild/%s] %s: %s changed from %r to %r' % (k, how, k, a, b)
+        if raised:
+            R[('rebuild', '%s:raised' % way)] = raised
+
+    # (1) wrap the built mesh again, twice; neither the new nor the original object may change
     m = build(inp, route, rows, vrows, sp)
     T = type(m)
     S0 = snapshot(m)
-    err = None
-    cur = m
+    cur, changed, raised = m, {}, None
     for rnd in (1, 2):
         try:
             cur = T(RawMeshData(cur))
         except Exception as e:
-            err = '[rebuild/raised] %s(RawMeshData(mesh)) (rebuild no %d) raised %s: %s' % (T.__name__, rnd, type(e).__name__, e); break
-        d = diff(S0, snapshot(cur))
-        if d:
-            err = '[rebuild/%s] after %s(RawMeshData(mesh)) (rebuild no %d) %s changed from %r to %r' % (d[0].split('.')[0], T.__name__, rnd, d[0], d[1], d[2]); break
-        d = diff(S0, snapshot(m))
-        if d:
-            err = '[rebuild/original-%s] rebuilding changed the ORIGINAL mesh: %s from %r to %r' % (d[0].split('.')[0], d[0], d[1], d[2]); break
-    R[('rebuild', 'rewrap')] = err
-    err = None
+            raised = '[rebuild/raised@%s] %s(RawMeshData(mesh)) (rebuild no %d) raised %s: %s' % ((raise_site(e) or '?').split(' ')[-1], T.__name__, rnd, type(e).__name__, e); break
+        for k, v in diffs(S0, snapshot(cur)).items():
+            changed.setdefault(k, v)
+        for k, v in diffs(S0, snapshot(m)).items():
+            changed.setdefault(k, v)
+    record('rewrap', S0, changed, 'after %s(RawMeshData(mesh)) (once / twice)' % T.__name__, raised)
+    # (2) through the class-selecting entry point
+    changed, raised = {}, None
+    m = build(inp, route, rows, vrows, sp)
+    S0 = snapshot(m)
     try:
-        m = build(inp, route, rows, vrows, sp)
-        S0 = snapshot(m)
         m3 = _instanciate_raw_mesh_data(RawMeshData(m))
-        d = diff(S0, snapshot(m3))
-        if d:
-            err = '[rebuild/%s] after _instanciate_raw_mesh_data(RawMeshData(mesh)) %s changed from %r to %r' % (d[0].split('.')[0], d[0], d[1], d[2])
+        changed = diffs(S0, snapshot(m3))
     except Exception as e:
-        err = '[rebuild/raised] _instanciate_raw_mesh_data(RawMeshData(mesh)) raised %s: %s' % (type(e).__name__, e)
-    R[('rebuild', 'instanciate')] = err
-    err = None
-    if route in ('raw', 'ctor'):
+        raised = '[rebuild/raised@%s] _instanciate_raw_mesh_data(RawMeshData(mesh)) raised %s: %s' % ((raise_site(e) or '?').split(' ')[-1], type(e).__name__, e)
+    record('instanciate', S0, changed, 'after _instanciate_raw_mesh_data(RawMeshData(mesh))', raised)
+    # (3) two objects from one RawMeshData
+    if route in ('raw', 'ctor', 'raw_prefilled'):
+        changed, raised, S0 = {}, None, {}
         try:
-            raw = make_raw(inp, rows, vrows)
+            raw = make_raw(inp, rows, vrows, route == 'raw_prefilled')
             T = getattr(M.mesh, sp['cls'])
             a = T(raw); S0 = snapshot(a)
             b = T(raw)
-            d = diff(S0, snapshot(b)) or diff(S0, snapshot(a))
-            if d:
-                err = '[rebuild/same-raw-%s] constructing twice from the same RawMeshData: %s changed from %r to %r' % (d[0].split('.')[0], d[0], d[1], d[2])
+            changed = diffs(S0, snapshot(b)); changed.update(diffs(S0, snapshot(a)))
         except Exception as e:
-            err = '[rebuild/raised] constructing twice from the same RawMeshData raised %s: %s' % (type(e).__name__, e)
-        R[('rebuild', 'same_raw')] = err
+            raised = '[rebuild/raised@%s] constructing twice from the same RawMeshData raised %s: %s' % ((raise_site(e) or '?').split(' ')[-1], type(e).__name__, e)
+        record('same_raw', S0, changed, 'constructing %s twice from the same RawMeshData' % sp['cls'], raised)
     return R
 
 
@@ -543,14 +570,17 @@ def battery(m):
     def op(n, fn, mut=False):
         ops[n] = (fn, mut)
     nV = len(m.vertices)
-    op('copy', lambda: snapshot(M.mesh.copy(m)))
-    op('merge', lambda: snapshot(M.mesh.merge([m, m])), True)
-    op('reorder_vertices', lambda: snapshot(M.mesh.reorder_vertices(m, list(range(nV))[::-1])), True)
-    op('rewrap', lambda: snapshot(type(m)(RawMeshData(m))), True)
-    for ext in ('mesh', 'obj', 'geogram_ascii'):
-        op('save_' + ext, lambda ext=ext: save_text(m, ext), True)
-    if name == 'PointCloud':
+
+    def generic():
+        op('copy', lambda: snapshot(M.mesh.copy(m)))
+        op('merge', lambda: snapshot(M.mesh.merge([m, m])), True)
+        op('reorder_vertices', lambda: snapshot(M.mesh.reorder_vertices(m, list(range(nV))[::-1])), True)
+        op('rewrap', lambda: snapshot(type(m)(RawMeshData(m))), True)
+        for ext in ('mesh', 'obj', 'geogram_ascii'):
+            op('save_' + ext, lambda ext=ext: save_text(m, ext), True)
         return ops
+    if name == 'PointCloud':
+        return generic()
     c = m.connectivity
     E = irows(m.edges)
     op('edge_id', lambda: [c.edge_id(a, b) for a, b in E] + [c.edge_id(b, a) for a, b in E])
@@ -559,7 +589,7 @@ def battery(m):
     if name == 'PolyLine':
         op('other_edge_end', lambda: [c.other_edge_end(e, E[e][0]) for e in range(len(E))])
         op('edge_to_vertices', lambda: [norm(c.edge_to_vertices(e)) for e in range(len(E))])
-        return ops
+        return generic()
     F = irows(m.faces)
     nF = len(F)
     op('face_id', lambda: [c.face_id(*f) for f in F] + [c.face_id(*f[::-1]) for f in F])
@@ -589,7 +619,7 @@ def battery(m):
                 s.triangulate()
             return snapshot(m)
         op('triangulate', tri, True)
-        return ops
+        return generic()
     Cl = irows(m.cells)
     nC = len(Cl)
     op('cell_to_face', lambda: [norm(c.cell_to_face(k)) for k in range(nC)])
@@ -621,7 +651,16 @@ def battery(m):
             s.split_cell_as_fan(0)
         return snapshot(m)
     op('split_cell_as_fan', fan, True)
-    return ops
+    return generic()
+
+
+def raise_site(e):
+    import traceback
+    site = None
+    for fr in traceback.extract_tb(e.__traceback__):
+        if '/mouette/' in fr.filename:
+            site = '%s:%d %s' % (os.path.basename(fr.filename), fr.lineno, fr.name)
+    return site
 
 
 def run_op(fn):
@@ -632,7 +671,7 @@ def run_op(fn):
     except OpTimeout:
         return ('timeout', None)
     except Exception as e:
-        return ('raised', '%s: %s' % (type(e).__name__, str(e)[:160]))
+        return ('raised', '%s: %s' % (type(e).__name__, str(e)[:160]), raise_site(e))
     finally:
         signal.alarm(0)
 
@@ -647,7 +686,17 @@ def rows_variants(inp):
 def check_rows(inp, sp, route, rows, only_op=None):
     """later behaviour with `rows` index rows (route raw / from_arrays) against the same mesh built from tuples"""
     R = {}
-    base = build(inp, 'raw', 'tuple', 'tuple', sp)
+    inp = dict(inp)
+    inp['V'] = [list(p) + [0.0] * (3 - len(p)) for p in inp['V']]     # this clause is about index rows only
+    try:
+        base = build(inp, 'raw', 'tuple', 'tuple', sp)
+    except Exception as e:
+        try:
+            build(inp, route, rows, 'tuple', sp)
+            other = 'succeeded'
+        except Exception as e2:
+            other = type(e2).__name__
+        return {('rows', 'construct'): None if other == type(e).__name__ else '[rows/construct-differs] construction with tuple rows raised %s, with %s rows (%s) it %s' % (type(e).__name__, rows, route, other)}
     names = list(battery(base))
     for n in names:
         if only_op and n != only_op:
@@ -658,12 +707,16 @@ def check_rows(inp, sp, route, rows, only_op=None):
                 m = build(inp, rt, rw, 'tuple', sp)
                 res.append(run_op(battery(m)[n][0]))
             except Exception as e:
-                res.append(('raised', 'construction/battery: %s: %s' % (type(e).__name__, e)))
+                res.append(('raised', '%s: %s (while constructing)' % (type(e).__name__, e), raise_site(e)))
         a, b = res
         err = None
         if a[0] != b[0] or (a[0] == 'ok' and a[1] != b[1]) or (a[0] == 'raised' and a[1].split(':')[0] != b[1].split(':')[0]):
             sa, sb = repr(a)[:300], repr(b)[:300]
-            err = '[rows/%s] %s with tuple rows -> %s ; with %s rows (%s) -> %s' % (n, n, sa, rows, route, sb)
+            if b[0] == 'raised':
+                kind = '%s@%s' % (b[1].split(':')[0], (b[2] or '?').split(' ')[-1])
+            else:
+                kind = n + '-differs'
+            err = '[rows/%s] %s with tuple rows -> %s ; with %s rows (%s) -> %s' % (kind, n, sa, rows, route, sb)
         R[('rows', n)] = err
     return R
 
@@ -726,6 +779,9 @@ def base_inputs():
     add('tet2_declared', T5 + [[3., 3., 3.]], E=[(3, 0), (5, 0), (2, 2)], F=[(3, 2, 1), (0, 1, 5), (2, 0, 1)], C=[(0, 1, 2, 3), (1, 2, 3, 4)],
         attrs=[A('w', 'float', 1, False, {0: 1.5, 1: 2.5, 2: 3.5})])
     add('tet2_faces_edges', T5, E=[(3, 0)], F=[(3, 2, 1)], C=[(0, 1, 2, 3), (1, 2, 3, 4)])
+    # every cell face declared by the caller: construction is possible with face completion switched off
+    add('tet1_all_faces', T5[:4], F=[(1, 2, 3), (0, 3, 2), (0, 1, 3), (2, 1, 0)], C=[(0, 1, 2, 3)])
+    add('tet2_all_faces', T5, E=[(4, 1)], F=[(1, 2, 3), (0, 3, 2), (0, 1, 3), (2, 1, 0), (4, 3, 2), (1, 3, 4), (1, 4, 2)], C=[(0, 1, 2, 3), (1, 2, 3, 4)])
     kuhn = []
     import itertools
     idx = lambda i, j, k: (i * 2 + j) * 2 + k
@@ -737,6 +793,7 @@ def base_inputs():
     add('kuhn6', [[float(i), float(j), float(k)] for i in range(2) for j in range(2) for k in range(2)], C=kuhn)
     add('hex1', CUBE, C=[tuple(range(8))])
     add('hex1_declared', CUBE, E=[(6, 0)], F=[(3, 2, 1, 0), (5, 6, 7, 4)], C=[tuple(range(8))])
+    add('hex1_all_faces', CUBE, F=[(3, 2, 1, 0), (4, 5, 6, 7), (0, 1, 5, 4), (1, 2, 6, 5), (2, 3, 7, 6), (3, 0, 4, 7)], C=[tuple(range(8))])
     V12 = CUBE + [[2., 0., 0.], [2., 1., 0.], [2., 0., 1.], [2., 1., 1.]]
     add('hex2', V12, C=[tuple(range(8)), (1, 8, 9, 2, 5, 10, 11, 6)])
     add('hex_tet', V12 + [[3., 0.5, 0.5]], C=[tuple(range(8)), (8, 9, 10, 12)])
@@ -753,7 +810,7 @@ def random_inputs(seed, count):
         kind = rnd.choice(['edges', 'surface', 'surface', 'volume', 'volume', 'all'])
         if kind in ('surface', 'all') or (kind == 'volume' and rnd.random() < 0.4):
             for _ in range(rnd.randint(1, 5)):
-                F.append(rnd.sample(range(nV), rnd.choice([3, 3, 3, 4, 4, 5])))
+                F.append(rnd.sample(range(nV), min(nV, rnd.choice([3, 3, 3, 4, 4, 5]))))
         if kind in ('volume', 'all'):
             for _ in range(rnd.randint(1, 4)):
                 if nV >= 8 and rnd.random() < 0.3:
@@ -845,6 +902,8 @@ def configurations(inp, thorough, rnd):
     for route in routes:
         if route in ('raw', 'ctor'):
             combos = [('tuple', 'tuple'), ('list', 'list'), ('numpy', 'numpy'), ('tuple', 'vec')] if route == 'raw' else [('list', 'vec'), ('numpy', 'tuple')]
+        elif route == 'raw_prefilled':
+            combos = [('list', 'vec')]
         elif route == 'from_arrays':
             combos = [('numpy', 'numpy')]
         else:
@@ -870,7 +929,7 @@ def main():
     req = read_request()
     seed = int(req.get('seed', 0) or 0)
     thorough = req.get('tier') == 'thorough'
-    mode = req.get('mode', 'bounded')
+    mode = req.get('mode', 'bounded')      # 'search' is run like 'bounded' (the optional 'function' focus is ignored)
     TMP = tempfile.mkdtemp(prefix='c02_')
     try:
         if mode == 'replay':
@@ -895,9 +954,9 @@ def main():
                 known_tags.add(tag(err))
         bud = Budget(270 if thorough else 50)
         rnd = random.Random(seed)
-        inputs = base_inputs() + list(random_inputs(seed, 150 if thorough else 25))
+        inputs = base_inputs() + list(random_inputs(seed, 200 if thorough else 40))
         if thorough:
-            inputs += list(random_inputs(seed + 1, 150))
+            inputs += list(random_inputs(seed + 1, 200))
         n = 0
         same = Counter()
         truncated = False
